@@ -1479,7 +1479,8 @@ def main():
     ctx.lap("exploration")
 
     st = env.stats
-    ctx.note("programs", {"total": st["programs"], "well_typed": st["well"], "ill_typed": st["ill"], "well_typed_failed": st["well_failed"], "ill_typed_accepted": st["ill_accepted"]})
+    ctx.note("programs", int(st["programs"]))
+    ctx.note("program_counts", {"total": st["programs"], "well_typed": st["well"], "ill_typed": st["ill"], "well_typed_failed": st["well_failed"], "ill_typed_accepted": st["ill_accepted"]})
     ctx.note("max_depth", st["max_depth"])
     ctx.note("depth_histogram_well_typed", {str(k): v for k, v in sorted(env.depth_hist.items())})
     ctx.note("operand_class_operation_pairs", {"distinct": len(env.pairs), "counts": dict(sorted(env.pairs.items()))})
